@@ -518,7 +518,7 @@ pub fn random_stage<T, S>(
                     cases: per as u32,
                     failure_persistence: None,
                     max_shrink_iters: 4000,
-                    max_shrink_time: 0,
+                    max_shrink_time: 150_000, // ms; a shorter replay is nicer, a violation reported sooner is worth more
                     max_local_rejects: 100000,
                     max_global_rejects: 100000,
                     verbose: 0,
